@@ -1,6 +1,7 @@
 #include "util/murmur_hash.hh"
 
 #include <iostream>
+#include <cstdio>
 #include <cstring>
 #include <memory>
 #include <vector>
@@ -26,6 +27,11 @@ int main(int argc, char *argv[]) {
     if (!count)
       break;
     chained_hash = util::MurmurHashNative(&buffer[0], count, chained_hash);
+  }
+  // std::cin is synchronized with stdio: a failing read(2) shows up in stdin's error flag, not as badbit.
+  if (std::ferror(stdin)) {
+    std::cerr << "Error trying to read from stdin\n";
+    return 1;
   }
   std::cout << std::hex << chained_hash << '\n';
   std::cout.flush();
